@@ -246,7 +246,21 @@ def check_value(e: ast.expr, sym: str, params: list[str]):
 
 # ---- R12.3 machinery
 
-def guard_chain(f: FuncInfo, node: ast.AST):
+_FLIP = {ast.Eq: ast.NotEq, ast.NotEq: ast.Eq, ast.Lt: ast.GtE, ast.GtE: ast.Lt, ast.Gt: ast.LtE, ast.LtE: ast.Gt, ast.Is: ast.IsNot, ast.IsNot: ast.Is, ast.In: ast.NotIn, ast.NotIn: ast.In}
+
+
+def _negate(t: ast.expr) -> list[ast.expr]:
+    """Conditions that hold when `t` is false (a list: `not (a or b)` gives two)."""
+    if isinstance(t, ast.UnaryOp) and isinstance(t.op, ast.Not):
+        return [t.operand]
+    if isinstance(t, ast.BoolOp) and isinstance(t.op, ast.Or):
+        return [x for v in t.values for x in _negate(v)]
+    if isinstance(t, ast.Compare) and len(t.ops) == 1 and type(t.ops[0]) in _FLIP:
+        return [ast.copy_location(ast.Compare(left=t.left, ops=[_FLIP[type(t.ops[0])]()], comparators=t.comparators), t)]
+    return [ast.copy_location(ast.UnaryOp(op=ast.Not(), operand=t), t)]
+
+
+def guard_chain(f: FuncInfo, node: ast.AST, early_exits: bool = False):
     """Positive branch conditions and enclosing handler types for a node inside f."""
     parents = f.module.parents()
     tests, handlers = [], set()
@@ -266,6 +280,13 @@ def guard_chain(f: FuncInfo, node: ast.AST):
                 ts = [h.type] if not isinstance(h.type, ast.Tuple) else h.type.elts
                 for t in ts:
                     handlers.add("BaseException" if t is None else norm(t))
+        # early exits before `cur` in the same block: `if T: return ...` makes `not T` hold afterwards
+        for fld in ("body", "orelse", "finalbody") if early_exits else ():
+            blk = getattr(p, fld, None)
+            if isinstance(blk, list) and any(cur is x for x in blk):
+                for prev in blk[: [i for i, x in enumerate(blk) if x is cur][0]]:
+                    if isinstance(prev, ast.If) and not prev.orelse and prev.body and isinstance(prev.body[-1], (ast.Return, ast.Raise, ast.Continue, ast.Break)):
+                        tests.extend(_negate(prev.test))
         cur = p
     conj = []
     for t in tests:
@@ -375,7 +396,7 @@ def check_folder(f: FuncInfo, r3) -> None:
             continue
         if not (isinstance(n.left, ast.Name) and isinstance(n.right, ast.Name) and n.left.id in params and n.right.id in params):
             continue
-        conj, handlers = guard_chain(f, n)
+        conj, handlers = guard_chain(f, n, early_exits=True)
         L, R = n.left.id, n.right.id
         lt, rt = operand_types(f, L, conj), operand_types(f, R, conj)
         ints = lt <= {"int", "bool"} and rt <= {"int", "bool"} and lt and rt
